@@ -201,7 +201,7 @@ def r3(tree, rep):
                 elif isinstance(c.func, ast.Attribute) and c.func.attr == "extract":
                     m = call_arg(c, 0, "member")
                     pth = call_arg(c, 1, "path")
-                    okc = dotted(m) == "info.filename" and isinstance(pth, ast.Name) and pth.id == "extract_dir"
+                    okc = m is not None and dotted(resolve_local(fn, m)) == "info.filename" and isinstance(pth, ast.Name) and pth.id == "extract_dir"
                     rep.check("C05.R3", "extract(member=info.filename, path=extract_dir)", okc, site(c, RX), key="C05.R3:extract-args")
     rep.check("C05.R3", "extract_dir/info are not rebound in _extract_file", not local_defs(fn, "extract_dir") and not local_defs(fn, "info"),
               site(fn, RX), key="C05.R3:rebound")
@@ -242,12 +242,14 @@ def r4(tree, rep):
     rep.check("C05.R4", "with --accept-file an allowed overwrite goes through _remove_existing (which refuses directories)", ok, site(fn, RX),
               key="C05.R4:accept-file-remove")
     re_fn = tree.func(RX, "Receiver", "_remove_existing")
-    g2 = build(re_fn)
+    g2 = build(re_fn, split=True)
     rm = g2.call_nodes(lambda c: dotted(c.func) in ("os.remove", "os.unlink"))
-    isfile = [n for n in g2.nodes(lambda s: isinstance(s, ast.If)) if isinstance(g2.stmt[n].test, ast.Call) and dotted(g2.stmt[n].test.func) == "os.path.isfile"]
-    isdir = [n for n in g2.nodes(lambda s: isinstance(s, ast.If)) if isinstance(g2.stmt[n].test, ast.Call) and dotted(g2.stmt[n].test.func) == "os.path.isdir"]
-    ok = len(rm) == 1 and len(isfile) == 1 and len(isdir) == 1 and not g2.guarded_by(isfile, rm, 'T') \
-        and g2.branch_always_raises(isdir[0], 'T') and g2.must_pass(isdir, explicit_only=True)
+    isfile = truthy_atom(lambda e: isinstance(e, ast.Call) and dotted(e.func) == "os.path.isfile")
+    isdir = truthy_atom(lambda e: isinstance(e, ast.Call) and dotted(e.func) == "os.path.isdir")
+    dir_edges = g2.cond_edges(isdir, True) + g2.cond_edges(isdir, False)
+    # removal only of a regular file; a directory always raises; no exit without having asked "is it a directory?"
+    ok = len(rm) == 1 and bool(g2.cond_edges(isfile, True)) and bool(dir_edges) and not g2.only_when(rm, isfile, True) \
+        and g2.when_always_raises(isdir, True) and g2.exit not in g2.reach(g2.entry, avoid_edges=set(dir_edges), explicit_only=True)
     rep.check("C05.R4", "_remove_existing removes only regular files and raises for an existing directory", ok, site(re_fn, RX),
               key="C05.R4:_remove_existing", what="an existing directory can be deleted / silently kept as the destination")
     ap = tree.func(RX, "Receiver", "_ask_permission")
